@@ -418,7 +418,7 @@ class SarrayInput(Task):
         from pyvc.exec import LIBS, METHODS, Const
         species = [Record("Species", name=n) for n in self.species]
         gas = Record("Gas", species_list=species)
-        LIBS[("cantera", "Solution")] = lambda ex_, a, k: gas
+        LIBS[("cantera", "Solution")] = lambda ex_, a, k: (a[0], gas)[1]            # whatever the mechanism file: the stub gas
         LIBS[("cantera", "one_atm")] = Const(101325.0)
         METHODS[("Record:Gas", "species")] = lambda ex_, self_, a, k: list(self_.attrs["species_list"])
         self_ = Record(CF + "Chef", fields={n: k for k, n in enumerate(self.fields)})
